@@ -35,8 +35,17 @@ class World:
         self.device = device          # optional simulator: apdu(bytes) -> item
         self.trace = []               # ("A", bytes) | ("C", ok) | ("X",)  (X = close)
         self.answers = []             # every item actually delivered (record for replay)
+        self.runaway = False
+
+    MAX_EXCHANGES = int(os.environ.get("VERIF_MAX_EXCHANGES", "20000"))
 
     def next_item(self, apdu):
+        # a run that never ends (e.g. a chunk loop that makes no progress) is cut off: the link
+        # "breaks" and the run is marked so that the caller reports it
+        if len(self.answers) >= self.MAX_EXCHANGES:
+            self.runaway = True
+            self.answers.append(("W",))
+            return ("W",)
         if self.device is not None:
             item = self.device(apdu)
         elif self.script:
